@@ -117,7 +117,7 @@ theorem flat_step (H : Heap) (kindOf : Ptr → Kind × Nat) (fuel fuel' : Nat) (
     (o : Out) (S' : SerSt) (hser : serVal fuel H S it = .ok (o, S'))
     (ty : Ty) (hty : tyOf fuel' H it = some ty)
     (rv : RVal) (e : Out) (D' : DeSt) (hde : de ty o D = .ok (rv, e, D')) :
-    Inv H kindOf S' D' ∧ Ext S D S' D' ∧ FieldRel S' D' it rv := by
+    Inv H kindOf S' D' ∧ Ext S D S' D' ∧ FieldRel H S' D' it rv := by
   cases it with
   | leaf lk =>
     have hp : plainV (.leaf lk) = true := rfl
@@ -129,8 +129,8 @@ theorem flat_step (H : Heap) (kindOf : Ptr → Kind × Nat) (fuel fuel' : Nat) (
     simp only [Except.ok.injEq, Prod.mk.injEq] at hde
     obtain ⟨rfl, _, rfl⟩ := hde
     exact ⟨inv, Ext.refl _ _, rfl⟩
-  | node t m items =>
-    have hp : plainV (.node t m items) = true := by
+  | node m items =>
+    have hp : plainV (.node m items) = true := by
       simp only [plainV]
       exact hit
     obtain ⟨e1, e2⟩ := ser_flat_plain fuel H _ hp S inv.pend o S' hser
@@ -145,7 +145,7 @@ theorem flat_step (H : Heap) (kindOf : Ptr → Kind × Nat) (fuel fuel' : Nat) (
     obtain ⟨hk, payload, hl, hp, ht⟩ := hit
     have hty' := tyOf_strong fuel' H k tid p payload hl hp ty hty
     subst hty'
-    rcases ser_flat_strong fuel H k tid p payload hl hp ht S inv.held o S' hser with
+    rcases ser_flat_strong fuel H k tid p payload hl hp ht S inv.pend inv.held o S' hser with
       ⟨id, h1, rfl, rfl⟩ | ⟨h1, rfl, rfl⟩
     · -- alias to a stored pointer
       obtain ⟨q, payload0, a1, a2, a3, a4, a5, a6⟩ := inv.stored p id h1
@@ -173,16 +173,19 @@ theorem flat_step (H : Heap) (kindOf : Ptr → Kind × Nat) (fuel fuel' : Nat) (
     obtain ⟨hk, hpl⟩ := hit
     have hty' := tyOf_weak fuel' H k tid p ty hty
     subst hty'
-    rcases ser_flat_weak fuel H k tid p hpl S inv.held o S' hser with
-      ⟨_, rfl, rfl⟩ | ⟨id, h1, rfl, rfl⟩ | ⟨payload, hl, h1, rfl, rfl⟩
-    · exact absurd hde (de_weak_dangling_fails k tid D inv.stack _)
+    rcases ser_flat_weak fuel H k tid p hpl S inv.pend inv.held o S' hser with
+      ⟨hn, rfl, rfl⟩ | ⟨id, h1, rfl, rfl⟩ | ⟨payload, hl, h1, rfl, rfl⟩
+    · rw [de_weak_dangling] at hde
+      simp only [Except.ok.injEq, Prod.mk.injEq] at hde
+      obtain ⟨rfl, _, rfl⟩ := hde
+      exact ⟨inv, Ext.refl _ _, Or.inl ⟨hn, rfl⟩⟩
     · obtain ⟨q, payload0, a1, a2, a3, a4, a5, a6⟩ := inv.stored p id h1
       rw [hk] at a4
       have hid : id ≠ 0 := Nat.ne_of_gt (inv.tab p id h1).1
       rw [de_weak_alias k tid id hid payload0 a2 D inv.opn a6 q a4] at hde
       simp only [Except.ok.injEq, Prod.mk.injEq] at hde
       obtain ⟨rfl, _, rfl⟩ := hde
-      exact ⟨inv, Ext.refl _ _, id, q, h1, a4, rfl⟩
+      exact ⟨inv, Ext.refl _ _, Or.inr ⟨by rw [a1]; simp, id, q, h1, a4, rfl⟩⟩
     · -- the definition lands on the weak field: reading it back fails
       obtain ⟨_, ht⟩ := hpl payload hl
       have hid : S.next ≠ 0 := Nat.ne_of_gt inv.next1
@@ -191,7 +194,9 @@ theorem flat_step (H : Heap) (kindOf : Ptr → Kind × Nat) (fuel fuel' : Nat) (
         | none => rfl
         | some v => exact absurd (inv.keys _ v hs).1 (Nat.lt_irrefl _)
       have hra := rootAnchor_plainOut S.next payload ht
-      obtain ⟨i, q, c1, c2, _, _⟩ := weak_node_ok onAliasLive true k tid _ (plainOut_not_alias _ payload) D rv e D' hde
+      rcases weak_node_ok onAliasLive true k tid _ (plainOut_not_alias _ payload) D rv e D' hde with
+        ⟨c0, _⟩ | ⟨_, i, q, c1, c2, _, _⟩
+      · rw [hra] at c0; exact absurd c0 hid
       rw [hra, current_after_push _ _ _ hid] at c1
       simp only [Option.some.injEq] at c1
       subst c1
@@ -204,7 +209,7 @@ theorem flat_list (H : Heap) (kindOf : Ptr → Kind × Nat) (fuel fuel' : Nat) :
     ∀ (outs : List Out) (S' : SerSt), traverse (fun st x => serVal fuel H st x) S items = .ok (outs, S') →
     ∀ (tys : List Ty), items.mapM (fun x => tyOf fuel' H x) = some tys →
     ∀ (vs : List RVal) (es : List Out) (D' : DeSt), deList onAliasLive true tys outs D = .ok (vs, es, D') →
-    Inv H kindOf S' D' ∧ Ext S D S' D' ∧ FieldsRel S' D' items vs := by
+    Inv H kindOf S' D' ∧ Ext S D S' D' ∧ FieldsRel H S' D' items vs := by
   intro items
   induction items with
   | nil =>
@@ -271,12 +276,12 @@ theorem inv_init (H : Heap) (kindOf : Ptr → Kind × Nat) : Inv H kindOf {} {} 
 original one field by field, under the final pointer table and store -/
 theorem roundtrip_flat (H : Heap) (kindOf : Ptr → Kind × Nat) (fuel : Nat) (m : Bool) (items : List Val)
     (hflat : ∀ it ∈ items, FlatItem H kindOf it) (rv : RVal) (s : DeSt)
-    (h : roundtrip fuel H (.node true m items) = .ok rv s) :
-    ∃ vs S', rv = .node m vs ∧ Inv H kindOf S' s ∧ FieldsRel S' s items vs := by
+    (h : roundtrip fuel H (.node m items) = .ok rv s) :
+    ∃ vs S', rv = .node m vs ∧ Inv H kindOf S' s ∧ FieldsRel H S' s items vs := by
   cases fuel with
   | zero => simp [roundtrip, serialize, serVal] at h
   | succ fuel =>
-    simp only [roundtrip, serialize, serVal, if_true] at h
+    simp only [roundtrip, serialize, serVal] at h
     cases hl : traverse (fun st x => serVal fuel H st x) ({ ({} : SerSt) with pending := none }) items with
     | error e => rw [hl] at h; simp at h
     | ok r =>
